@@ -91,9 +91,9 @@ CHECKS = {
    text="Lean schedule/environment-freshness model of dmrg_: for every N>=1, every sequence of methods over the sweeps, precompute on/off, canonical or not: every Heff/measure event "
         "reads only present and FRESH environments (dmrg_reads_fresh), exit state (pC none, edge environments fresh), the last event is the measure giving the reported energy, exit "
         "gauge; energy_ge_lambda_min (C09Var, Mathlib Rayleigh quotient): for EVERY Hermitian H on a finite-dimensional sector over R or C the lowest eigenvalue exists and bounds the "
-        "energy re<Hx,x>/|x|^2 of every non-zero state from below; eigenstate_energy: the energy of an eigenvector is its eigenvalue with zero residual. Tie: event traces of real dmrg_ runs (run-time wrapping, no source hooks) vs the model trace and the stamp checker; oracles on real results vs dense references: "
+        "energy re<Hx,x>/|x|^2 of every non-zero state from below; eigenstate_energy: the energy of an eigenvector is its eigenvalue with zero residual; local_solve_nonincreasing: for every isometric embedding V of a local tensor space the effective Hamiltonian V^+HV is Hermitian and its lowest eigenvector has a full-problem energy <= that of every other local tensor, i.e. of the start vector (one local step never raises the energy). Tie: event traces of real dmrg_ runs (run-time wrapping, no source hooks) vs the model trace and the stamp checker; oracles on real results vs dense references: "
         "normalised/canonical/sector, E == <psi|H|psi>, E >= lambda_min(sector), monotone sweeps, eigenstate at convergence, projectors, sums of MPOs, precompute on/off.",
-   note=TB + "The variational bound is proved for the abstract sector (exact arithmetic); that the reported number IS that Rayleigh quotient, monotonicity, convergence and penalty behaviour are checked by oracles on the real code, not proved; eigs is a validated contract. Known finding: '2site' never renormalises.",
+   note=TB + "The variational bound is proved for the abstract sector (exact arithmetic); that the reported number IS that Rayleigh quotient, that eigs returns the lowest local eigenpair (validated contract), monotonicity over whole sweeps, convergence and penalty behaviour are checked by oracles on the real code, not proved; eigs is a validated contract. Known finding: '2site' never renormalises.",
    technique="Lean 4 proof of schedule/freshness logic and of the variational bound + trace correspondence + dense oracles", design="§5 C09"),
  "C10": dict(
    cat="proof",
